@@ -1,5 +1,6 @@
 import LdkModel.Props.C01
 import LdkModel.Props.C01Stats
+import LdkModel.Props.C01Fee
 import LdkModel.Props.ChanProto
 #print axioms Ldk.C01.commit_outputs_partition
 #print axioms Ldk.C01.outputs_plus_fee_le_channel_value
@@ -24,6 +25,8 @@ import LdkModel.Props.ChanProto
 #print axioms Ldk.C01.limit_accepted_by_peer_partial
 #print axioms Ldk.C01.limit_accepted_by_peer_nospike
 #print axioms Ldk.C01.fundee_limit_not_accepted_example
+#print axioms Ldk.C01Fee.update_fee_reserve_accepted
+#print axioms Ldk.C01Fee.sender_test_is_peer_reserve
 #print axioms Ldk.ChanProto.counters_step_by_one
 #print axioms Ldk.ChanProto.counters
 #print axioms Ldk.ChanProto.at_most_one_outstanding
